@@ -692,6 +692,9 @@ def _workload(tier, rng, shard, nshards):
             rng.shuffle(rows)
         else:
             rows.sort()
+        if rng.random() < 0.3:
+            rows = [list(r) for r in rows]  # rows as lists (as a csv reader or json hands them over), not tuples
+            REC.cls("C15:samples:rows-are-lists")
         if kind == "I":
             call(t.getValuesInIntervals, rows)
             if ents:
